@@ -17,7 +17,39 @@ TECHNIQUE = ("runtime monitoring: differential text monitor on the real compiler
              "vs the independently computed default written out - over seeded generated specs")
 
 
+def flatten_in_place_spec(rnd):
+    """flatten() of two or three ranks that are adjacent and in order in the default loop
+    order (optionally with occupancy of the flattened rank): replaced in place."""
+    for _ in range(60):
+        b, info = GE.gen_plain(rnd, products_only=True, allow_take=False, allow_scalar=False,
+                               max_ranks=4)
+        e = b.exprs[0]
+        order = D.root_order(e)
+        cands = []
+        for a in e.inputs():
+            rs = b.decl[a.name]
+            for n in (2, 3):
+                for j in range(len(order) - n + 1):
+                    g = order[j:j + n]
+                    if all(r in rs for r in g) and sum(1 for r in g if r in b.decl[e.out.name]) <= 1:
+                        cands.append((a.name, g))
+        if not cands:
+            continue
+        t, g = rnd.choice(cands)
+        s = b.clone()
+        parts = {"(%s)" % ", ".join(g): ["flatten()"]}
+        if rnd.random() < 0.5:
+            parts["".join(g)] = ["uniform_occupancy(%s.%d)" % (t, rnd.randint(2, 5))]
+        s.partitioning = {e.out.name: parts}
+        s.loop_order = None
+        s.tags = list(s.tags) + ["flatten-in-place"]
+        return s
+    return None
+
+
 def base_spec(rnd, i):
+    if i % 13 == 12:
+        return flatten_in_place_spec(rnd), "flatten-in-place"
     k = i % 6
     if k in (0, 1):
         s, info = GE.gen_plain(rnd)
@@ -143,14 +175,16 @@ def finalize(results, counters, tier, seed):
     mon = counters.get("monitor", {})
     if mon.get("pairs-compared", 0) < N[tier] // 4:
         inc.append("too few pairs compared: %r" % mon)
-    miss = [s for s in ("plain", "shape", "occupancy", "cascade", "affine", "omit-loop-order",
+    miss = [s for s in ("plain", "shape", "occupancy", "cascade", "affine", "flatten-in-place",
+                        "omit-loop-order",
                         "omit-rank-order", "omit-both", "omit-all")
             if counters.get("strata_ok", {}).get(s, 0) == 0]
     if miss:
         inc.append("strata never compared: %r" % miss)
     cov = {"rule": "C01/C02/C03(splits)/C04/C05 Einsums x which sections are omitted (loop-order, "
                    "rank-order, both, everything); sums with a take() term before a product term and "
-                   "flatten() mappings excluded; distinct = (spec, omitted sections); non-trivial = "
+                   "flatten() mappings excluded, except a flatten() of ranks adjacent and in order in the "
+                   "default order, which is replaced in place; distinct = (spec, omitted sections); non-trivial = "
                    "both variants compiled and were compared"}
     return cov, ["default computed from the statement: declared rank order; loop order = output "
                  "ranks as written, then remaining ranks by first appearance reading the expression "
